@@ -311,6 +311,10 @@ def _table_order(col, rule="C08.R3"):
                 col.add(rule, f"Table._get_regexp_indices#occurrence-lookup-when-count-given:{S.show(m['a'][0], False)[:30]}", given in conds, sx.loc(ev),
                         "`pattern::count` looks up that occurrence of the matching names exactly when a count was given (without one, every "
                         "matching row is selected)", str([S.show(c) for c in conds]))
+    counts = [sum(1 for t in S.subterms(a) if t == off) for a in S.instances(final.value, 16)]
+    col.add(rule, "Table._get_regexp_indices#offset-applied-once", all(n <= 1 for n in counts), sx.loc(final),
+            "the shift is applied once: either the occurrence lookup takes it or the result is shifted, not both",
+            f"occurrences of the parsed offset in what is returned: {counts}")
     col.add(rule, "Table._get_regexp_indices#offset-applied", offset_ok, sx.loc(final),
             "the `<<`/`>>` offset shifts every selected position", S.show(final.value)[-60:])
 
